@@ -74,8 +74,8 @@ def check_solved_flags(acc: Acc, child_cubes: np.ndarray, ts: Any, replay_of, wh
         acc.violation(f"{FAM}:done:not-iff-solved",
                       f"{where}: step_type {st[ix]} discount {dc[ix]} but faces uniformly coloured = "
                       f"{bool(solved[ix])} (step counter 1 of 200)", replay_of(ix))
-    acc.count("solved_states_seen", int(solved.sum()))
-    acc.count("unsolved_states_seen", int((~solved).sum()))
+    acc.count("cube_solved_states_seen", int(solved.sum()))
+    acc.count("cube_unsolved_states_seen", int((~solved).sum()))
     return solved
 
 
@@ -131,7 +131,7 @@ def moves(n: int, tier: str, seed: int, pairs: bool = True) -> Dict[str, Any]:
         if out.dtype != labs.dtype or out.shape[2:] != (6, n, n):
             acc.violation(f"{FAM}:{via}:changes-shape-or-dtype", f"output {out.dtype}{out.shape[2:]}",
                           dict(kind="cube_move", n=n, via=via, flat=0))
-        for k in range(nA):
+        for k in range(min(nA, A)):
             rp = dict(kind="cube_move", n=n, via=via, flat=int(k), action=list(map(int, R.triple_of(n, k))))
             if not np.array_equal(np.sort(flat[0, k]), ident):
                 acc.violation(f"{FAM}:{via}:not-a-permutation-of-the-stickers",
@@ -535,13 +535,13 @@ def scramble(n: int, ks: Sequence[int], n_keys: int, ball_depth: int, tier: str,
                 if ball.get(c.tobytes(), 10 ** 9) > k:
                     acc.violation(f"{FAM}:reset:cube-not-within-num_scrambles-moves-of-solved",
                                   f"n={n} k={k} PRNGKey({i}): not in the BFS ball of radius {k}", rp)
-                acc.count("reset_states_in_bfs_ball")
+                acc.count("cube_reset_states_in_bfs_ball")
             why = R.unreachable_reasons(cubes[i])
             if why:
                 acc.violation(f"{FAM}:reset:cube-not-reachable-from-solved",
                               f"n={n} k={k} PRNGKey({i}): broken invariants {why}", rp)
-            acc.count("reset_states_checked")
-        for i in pick(range(n_keys), 2 if tier == "quick" else 4, seed):
+            acc.count("cube_reset_states_checked")
+        for i in pick(range(n_keys), 1 if tier == "quick" else 2, seed):
             s, _ = env.reset(jax.random.PRNGKey(i))
             if not np.array_equal(np.asarray(s.cube), cubes[i]):
                 acc.violation(f"{FAM}:reset:eager-differs-from-jit-vmap", f"n={n} k={k} key {i}",
@@ -552,7 +552,7 @@ def scramble(n: int, ks: Sequence[int], n_keys: int, ball_depth: int, tier: str,
                             cube=cubes[0].reshape(6, -1).tolist()))
     acc.states += len(distinct)
     acc.count("distinct_scramble_moves_drawn", int(seen_draws.sum()))
-    acc.count("distinct_reset_cubes", len(distinct))
+    acc.count("cube_distinct_reset_states", len(distinct))
     return acc.result(exhaustive=True, cube_size=n, num_scrambles=list(map(int, ks)), keys=n_keys,
                       moves_never_drawn=int((~seen_draws).sum()), wall_s=round(time.time() - t0, 2))
 
